@@ -474,12 +474,12 @@ theorem LogStep.bits {s s' : Sys} {i : Nat} {rs : List Rec} (h : LogStep s s' i 
   obtain ⟨f, f', hf, e, hb⟩ := h.ex
   simp [Sys.bitsOf, e, listSet_get, hf, hb]
 
-/-- Disk and memory agree (`val = true`), or at least every file is well formed (`val = false`). -/
+/-- Disk and memory agree (`val = true`), or at least every file is well formed (`val = false`).
+Nothing is said about `.snapshotting` files: leftovers of any content may lie around. -/
 structure Good (val : Bool) (s : Sys) (d : Disk) : Prop where
   frag : ∀ i, i < s.frags.length → ∃ b cs x, d.get (.data i) = some (.image b :: cs) ∧ replay b cs = some x ∧
       (val = true → x = s.bitsOf i)
   absent : ∀ i, s.frags.length ≤ i → d.get (.data i) = none
-  snap : ∀ i, d.get (.snap i) = none
   keysOn : s.keysOpen = true → ∃ cs x, d.get .keys = some cs ∧ replayKeys cs = some x ∧ (val = true → x = s.keys)
   keysOff : s.keysOpen = false → d.get .keys = none ∧ s.keys = []
 
@@ -487,7 +487,6 @@ theorem good_init (val : Bool) : Good val {} [] := by
   constructor
   · intro i hi; simp at hi
   · intro i _; rfl
-  · intro i; rfl
   · intro h; simp at h
   · intro _; exact ⟨rfl, rfl⟩
 
@@ -713,7 +712,7 @@ theorem good_next (val : Bool) (s s' : Sys) (d : Disk) (e : Emit) (g : Good val 
   | nothing =>
     obtain ⟨h1, h2, h3⟩ := hs
     simp only [Emit.ops, Disk.applyAll, List.foldl_nil]
-    refine ⟨?_, ?_, g.snap, ?_, ?_⟩
+    refine ⟨?_, ?_, ?_, ?_⟩
     · rw [h1]; intro i hi
       obtain ⟨b, cs, x, a1, a2, a3⟩ := g.frag i hi
       exact ⟨b, cs, x, a1, a2, fun hv => by rw [a3 hv]; simp [Sys.bitsOf, h1]⟩
@@ -728,7 +727,7 @@ theorem good_next (val : Bool) (s s' : Sys) (d : Disk) (e : Emit) (g : Good val 
       | true => exact absurd rfl (hu rfl)
     subst hv
     simp only [Emit.ops, Disk.applyAll, List.foldl_nil]
-    refine ⟨?_, by rw [hf.length]; exact g.absent, g.snap, ?_, ?_⟩
+    refine ⟨?_, by rw [hf.length]; exact g.absent, ?_, ?_⟩
     · rw [hf.length]; intro i hi
       obtain ⟨b, cs, x, a1, a2, _⟩ := g.frag i hi
       exact ⟨b, cs, x, a1, a2, fun h => by cases h⟩
@@ -743,7 +742,7 @@ theorem good_next (val : Bool) (s s' : Sys) (d : Disk) (e : Emit) (g : Good val 
     obtain ⟨a1, a2⟩ := applyAll_logs i0 rs d _ h1
     have hops : (Emit.logs i0 rs).ops = logOps i0 rs := rfl
     rw [hops]
-    refine ⟨?_, ?_, ?_, ?_, ?_⟩
+    refine ⟨?_, ?_, ?_, ?_⟩
     · rw [hf.length]; intro i hi
       by_cases e : i = i0
       · subst e
@@ -755,7 +754,6 @@ theorem good_next (val : Bool) (s s' : Sys) (d : Disk) (e : Emit) (g : Good val 
     · rw [hf.length]; intro i hi
       have : i ≠ i0 := by have := hf.lt; omega
       rw [a2 _ (data_ne_data i i0 this)]; exact g.absent i hi
-    · intro i; rw [a2 _ (fun h => by cases h)]; exact g.snap i
     · rw [hf.keysOpen, hf.keys]; intro hk
       obtain ⟨cs', x, c1, c2, c3⟩ := g.keysOn hk
       exact ⟨cs', x, by rw [a2 _ (keys_ne_data i0)]; exact c1, c2, c3⟩
@@ -777,7 +775,7 @@ theorem good_next (val : Bool) (s s' : Sys) (d : Disk) (e : Emit) (g : Good val 
         · subst e2; simp [get_del_same]
         · simp only [e2, if_false]
           rw [get_del_ne _ _ _ e2, get_set_ne _ _ _ _ e2, get_set_ne _ _ _ _ e2]
-    refine ⟨?_, ?_, ?_, ?_, ?_⟩
+    refine ⟨?_, ?_, ?_, ?_⟩
     · rw [hf.length]; intro i hi
       by_cases e : i = i0
       · subst e
@@ -788,12 +786,6 @@ theorem good_next (val : Bool) (s s' : Sys) (d : Disk) (e : Emit) (g : Good val 
     · rw [hf.length]; intro i hi
       have : i ≠ i0 := by have := hf.lt; omega
       rw [hfin]; simp [data_ne_data i i0 this, data_ne_snap]; exact g.absent i hi
-    · intro i
-      rw [hfin]
-      by_cases e : i = i0
-      · subst e; simp [(data_ne_snap i i).symm]
-      · have : Path.snap i ≠ Path.snap i0 := by intro h; cases h; exact e rfl
-        simp [(data_ne_snap i0 i).symm, this]; exact g.snap i
     · rw [hf.keysOpen, hf.keys]; intro hk
       obtain ⟨cs', x, c1, c2, c3⟩ := g.keysOn hk
       exact ⟨cs', x, by rw [hfin]; simp [keys_ne_data, keys_ne_snap]; exact c1, c2, c3⟩
@@ -811,7 +803,7 @@ theorem good_next (val : Bool) (s s' : Sys) (d : Disk) (e : Emit) (g : Good val 
       · subst e1; simp [get_set_same]
       · simp only [e1, if_false]; rw [get_set_ne _ _ _ _ e1, get_set_ne _ _ _ _ e1]
     have hlen : s'.frags.length = s.frags.length + 1 := by rw [hfr]; simp
-    refine ⟨?_, ?_, ?_, ?_, ?_⟩
+    refine ⟨?_, ?_, ?_, ?_⟩
     · rw [hlen]; intro i hi
       by_cases e : i = i0
       · subst e
@@ -824,7 +816,6 @@ theorem good_next (val : Bool) (s s' : Sys) (d : Disk) (e : Emit) (g : Good val 
     · rw [hlen]; intro i hi
       have : i ≠ i0 := by omega
       rw [hfin]; simp [data_ne_data i i0 this]; exact g.absent i (by omega)
-    · intro i; rw [hfin]; simp [(data_ne_snap i0 i).symm]; exact g.snap i
     · rw [hko, hk]; intro hk'
       obtain ⟨cs', x, c1, c2, c3⟩ := g.keysOn hk'
       exact ⟨cs', x, by rw [hfin]; simp [keys_ne_data]; exact c1, c2, c3⟩
@@ -840,13 +831,12 @@ theorem good_next (val : Bool) (s s' : Sys) (d : Disk) (e : Emit) (g : Good val 
       by_cases e1 : p = .keys
       · subst e1; simp [get_set_same]
       · simp only [e1, if_false]; rw [get_set_ne _ _ _ _ e1]
-    refine ⟨?_, ?_, ?_, ?_, ?_⟩
+    refine ⟨?_, ?_, ?_, ?_⟩
     · rw [hfr]; intro i hi
       obtain ⟨b', cs', x', c1, c2, c3⟩ := g.frag i hi
       exact ⟨b', cs', x', by rw [hfin]; simp [data_ne_keys]; exact c1, c2,
              fun hv => by rw [c3 hv]; simp [Sys.bitsOf, hfr]⟩
     · rw [hfr]; intro i hi; rw [hfin]; simp [data_ne_keys]; exact g.absent i hi
-    · intro i; rw [hfin]; simp [(keys_ne_snap i).symm]; exact g.snap i
     · intro _
       exact ⟨[], [], by rw [hfin]; simp, by simp [replayKeys, replayKeysFrom], fun _ => by rw [hkk, hempty]⟩
     · intro h; rw [hk1] at h; cases h
@@ -860,13 +850,12 @@ theorem good_next (val : Bool) (s s' : Sys) (d : Disk) (e : Emit) (g : Good val 
       by_cases e1 : p = .keys
       · subst e1; simp [get_set_same]
       · simp only [e1, if_false]; rw [get_set_ne _ _ _ _ e1]
-    refine ⟨?_, ?_, ?_, ?_, ?_⟩
+    refine ⟨?_, ?_, ?_, ?_⟩
     · rw [hfr]; intro i hi
       obtain ⟨b', cs', x', c1, c2, c3⟩ := g.frag i hi
       exact ⟨b', cs', x', by rw [hfin]; simp [data_ne_keys]; exact c1, c2,
              fun hv => by rw [c3 hv]; simp [Sys.bitsOf, hfr]⟩
     · rw [hfr]; intro i hi; rw [hfin]; simp [data_ne_keys]; exact g.absent i hi
-    · intro i; rw [hfin]; simp [(keys_ne_snap i).symm]; exact g.snap i
     · intro _
       have hrk : replayKeys (cs ++ [.entry ps]) = some (ps.foldl keyAdd x0) :=
         replayKeysFrom_append cs ps [] x0 h2
